@@ -115,9 +115,12 @@ K == IF Tier = "thorough" THEN 5 ELSE 4
 \* 1e-4 of the box size from side s (1 = low h, 2 = high h, 3 = low v, 4 = high v)
 \* (rim depth class j: 0 = 1e-4, 1 = 1e-6, 2 = 1e-9 of the box size - a final location may be arbitrarily close to
 \* the face through which the flow enters or leaves and is still inside the box)
-Locs == [kind : {"cell"}, i : 1..K, j : 1..K] \cup [kind : {"rim"}, i : 1..4, j : 0..2]
-LocSeq == [n \in 1..(K * K + 12) |-> IF n <= K * K THEN [kind |-> "cell", i |-> ((n - 1) \div K) + 1, j |-> ((n - 1) % K) + 1]
-                                       ELSE [kind |-> "rim", i |-> ((n - K * K - 1) % 4) + 1, j |-> (n - K * K - 1) \div 4]]
+\* "int": a final location on the integer lattice strictly inside the box, handed over as an INTEGER-typed array
+\* (i = 1) or as a plain list of Python ints (i = 2) - the same point as its float spelling
+Locs == [kind : {"cell"}, i : 1..K, j : 1..K] \cup [kind : {"rim"}, i : 1..4, j : 0..2] \cup [kind : {"int"}, i : 1..2, j : {0}]
+LocSeq == [n \in 1..(K * K + 14) |-> IF n <= K * K THEN [kind |-> "cell", i |-> ((n - 1) \div K) + 1, j |-> ((n - 1) % K) + 1]
+                                       ELSE IF n <= K * K + 12 THEN [kind |-> "rim", i |-> ((n - K * K - 1) % 4) + 1, j |-> (n - K * K - 1) \div 4]
+                                       ELSE [kind |-> "int", i |-> n - K * K - 12, j |-> 0]]
 Scen(f, a, s, loc, li, st) ==
     [fam |-> Fams[f], axes |-> AxisStrs[a], par |-> Setups(Fams[f])[s].par, box |-> Setups(Fams[f])[s].box,
      loc |-> LocSeq[loc], lim_e1 |-> Lims[li], steps |-> StepsSet[st]]
@@ -126,7 +129,7 @@ Scen(f, a, s, loc, li, st) ==
 Mod == IF Tier = "thorough" THEN 1 ELSE 37
 Seed == IF "VERIF_SEED" \in DOMAIN IOEnv THEN atoi(IOEnv.VERIF_SEED) ELSE 0
 Selected(x, sd) == (x[1] + 2 * x[2] + 3 * x[3] + 5 * x[4] + 7 * x[5] + 11 * x[6] + sd) % Mod = 0
-NLoc == K * K + 12
+NLoc == K * K + 14
 NSetup == <<4, 5, 5>>
 ASSUME \A f \in 1..3 : NSetup[f] = Len(Setups(Fams[f]))
 AllIdx == {x \in (1..3) \X (1..6) \X (1..5) \X (1..NLoc) \X (1..5) \X (1..3) : x[3] <= NSetup[x[1]]}
@@ -138,7 +141,7 @@ InSpace(s) ==
     /\ \E f \in 1..3 : /\ s.fam = Fams[f]
                        /\ \E x \in 1..Len(Setups(Fams[f])) : Setups(Fams[f])[x].par = s.par /\ Setups(Fams[f])[x].box = s.box
     /\ \E a \in 1..6 : s.axes = AxisStrs[a]
-    /\ \E n \in 1..(K * K + 12) : LocSeq[n] = [kind |-> s.loc.kind, i |-> s.loc.i, j |-> s.loc.j]
+    /\ \E n \in 1..(K * K + 14) : LocSeq[n] = [kind |-> s.loc.kind, i |-> s.loc.i, j |-> s.loc.j]
     /\ \E li \in 1..5 : s.lim_e1 = Lims[li]
     /\ \E st \in 1..3 : s.steps = StepsSet[st]
 
